@@ -228,6 +228,28 @@ def values_job(job):
                 call_expect(w, gen, lambda: z.set_power(ps), f"at{gen} zone{zid} turbo_support={zs['turbo_support']}.set_power({ps.name})",
                             f"at{gen}:zone-power:{ps.name}", bad, sup,
                             lambda r: cc.match_zone_control(gen, r, cc.zone_intent(zid, power=ps.name.lower())), kind="zone-control")
+        # the same zone objects after the console reports the opposite: sensors fitted or removed, turbo support gained
+        # or lost (every zone has been asked everything above, so anything that latched on first use shows now)
+        for zid in zones:
+            zs = w.console.state["zone"][zid]
+            zs["sensor"] = not zs["sensor"]
+            zs["turbo_support"] = not zs["turbo_support"]
+            if zs["sensor"]:
+                zs.update({"temperature": 22.5, "setpoint": 22 if gen == 4 else 22.0})
+        w.console.send_raw(w.console.zone_status_frame())
+        w.loop.settle()
+        for zid, z in sorted(zones.items()):
+            zs = w.console.state["zone"][zid]
+            n += 2
+            t = 23.0
+            call_expect(w, gen, lambda: z.set_target_temperature(t), f"at{gen} zone{zid} now reported with sensor={zs['sensor']}: set_target_temperature({t})",
+                        f"at{gen}:zone-setpoint:after-flip:sensor={zs['sensor']}", bad, zs["sensor"],
+                        lambda r: cc.match_zone_control(gen, r, cc.zone_intent(zid, setting="setpoint", value=r["value"], methods=(KEEP, "temperature"))),
+                        kind="zone-control")
+            sup = gen == 5 or zs["turbo_support"]
+            call_expect(w, gen, lambda: z.set_power(A.ZonePowerState.TURBO), f"at{gen} zone{zid} now reported with turbo_support={zs['turbo_support']}: set_power(TURBO)",
+                        f"at{gen}:zone-power:after-flip:TURBO", bad, sup,
+                        lambda r: cc.match_zone_control(gen, r, cc.zone_intent(zid, power="turbo")), kind="zone-control")
     elif part == "timers":
         inst = console.default_installation(gen, 2, (1, 1))
         w = cc.initialised(gen, inst)
